@@ -14,6 +14,8 @@ def one(id_):
     d = os.path.join(VERIF, "seeded", id_)
     mf = os.path.join(d, "meta.json")
     m = json.load(open(mf))
+    if m.get("skip_final"):
+        return id_, True, ""  # (documented in meta.json: e.g. a change neutralised by the repair it led to)
     how = m.get("how_run", "")
     also = re.search(r"--also (\S+)", how)
     cmd = [os.path.join(HERE, "trial.py"), d, m["property"]] + (["--also", also.group(1)] if also else [])
